@@ -41,6 +41,9 @@ structure St where
   xrRv : Nat          -- resourceVersion of the XR (bumped by spec/metadata writes that change it)
   refs : List Ref
   objs : List CObj
+  /-- ghost: objects controlled by someone else, recorded when the history starts; no API
+  call reads or writes this field (used to state "foreign objects are left exactly as they were") -/
+  foreign0 : List CObj := []
   deriving Repr, Inhabited
 
 structure Desired where
